@@ -198,14 +198,19 @@ func (c *Cluster) execOp(op string) {
 		}
 	case "proposebatch":
 		// one MsgProp carrying several entries (RawNode.Step), optionally with a
-		// configuration change at position f[3]: proposebatch <node> <n> [<pos> <ccspec>]
+		// configuration change at position f[3] (and a second one at f[5]):
+		// proposebatch <node> <n> [<pos> <ccspec> [<pos2> <ccspec2>]]
 		if n := c.nodeArg(f[1]); n != nil && n.alive {
 			cnt := int(atou(f[2]))
 			var ents []*pb.Entry
 			var toks []string
+			ccAt := map[int]string{}
+			for k := 3; k+1 < len(f); k += 2 {
+				ccAt[int(atou(f[k]))] = f[k+1]
+			}
 			for i := 0; i < cnt; i++ {
-				if len(f) > 4 && i == int(atou(f[3])) {
-					typ, data, _ := pb.MarshalConfChange(parseCC(f[4]))
+				if spec, ok := ccAt[i]; ok {
+					typ, data, _ := pb.MarshalConfChange(parseCC(spec))
 					ents = append(ents, &pb.Entry{Type: typ.Enum(), Data: data})
 					continue
 				}
